@@ -2,8 +2,8 @@
    genesis document, and the observed carried state of the chain initialised from it. *)
 From Coq Require Import ZArith List Bool Uint63.
 From RecordUpdate Require Import RecordUpdate.
-From Sif Require Import Base.Outcome Base.Store Base.Bank Model.ClpTypes Model.ClpPolicy Model.Dispensation Model.Genesis
-  Check.Eq Check.Decode Check.DecClp Check.ClpHist Check.Policy Check.Disp.
+From Sif Require Import Base.Outcome Base.Store Base.Bank Model.ClpTypes Model.ClpPolicy Model.Dispensation Model.Margin Model.Genesis
+  Check.Eq Check.Decode Check.DecClp Check.ClpHist Check.Policy Check.Disp Check.Margin.
 Import ListNotations.
 Local Open Scope Z_scope.
 Local Open Scope dec_scope.
@@ -38,12 +38,22 @@ Definition dgen_eqb (a b : disp_gen) : bool :=
   list_eqb (pair_eqb Z.eqb (pair_eqb key_eqb rec_eqb)) (dg_records a) (dg_records b) &&
   list_eqb triple_eqb (dg_dists a) (dg_dists b) && list_eqb pair_eqbZ (dg_claims a) (dg_claims b).
 
+Definition mparams_eqb (a b : mparams) : bool :=
+  (mp_lev_max a =? mp_lev_max b) && (mp_safety a =? mp_safety b) && (mp_epoch_len a =? mp_epoch_len b) &&
+  Bool.eqb (mp_incr a) (mp_incr b) && (mp_incr_pct a =? mp_incr_pct b) && (mp_incr_fund a =? mp_incr_fund b) &&
+  (mp_fc_pct a =? mp_fc_pct b) && (mp_fc_fund a =? mp_fc_fund b) &&
+  list_eqb Z.eqb (mp_pools a) (mp_pools b) && list_eqb Z.eqb (mp_closed a) (mp_closed b) &&
+  Bool.eqb (mp_whitelisting a) (mp_whitelisting b) && (mp_max_open a =? mp_max_open b) && Bool.eqb (mp_rowan_coll a) (mp_rowan_coll b) &&
+  (mp_rate_min a =? mp_rate_min b).
+
 Inductive gen_case :=
 | GClp (id h : Z) (c1 : clp_carried) (g : clp_gen) (c2 : clp_carried)
-| GDisp (id : Z) (d1 : disp_carried) (g : disp_gen) (d2 : disp_carried).
+| GDisp (id : Z) (d1 : disp_carried) (g : disp_gen) (d2 : disp_carried)
+| GMargin (id : Z) (s1 : mstate) (doc : list (Z * (Z * mtp))) (s2 : mstate).
 Definition dGenCase : dec gen_case :=
   k <- dZ ;; id <- dZ ;;
   if k =? 1 then h <- dZ ;; c1 <- dCarried ;; g <- dGen ;; c2 <- dCarried ;; dRet (GClp id h c1 g c2)
+  else if k =? 3 then s1 <- dMState ;; doc <- dList (dPair dZ (dPair dZ dMtp)) ;; s2 <- dMState ;; dRet (GMargin id s1 doc s2)
   else d1 <- dDCarried ;; g <- dDGen ;; d2 <- dDCarried ;; dRet (GDisp id d1 g d2).
 
 (* 1: the model's export of the observed state is not the observed document; 2: the model's import of the
@@ -63,5 +73,16 @@ Definition gen_mismatch (c : gen_case) : option (Z * Z) :=
   | GDisp id d1 g d2 =>
     if negb (dgen_eqb (export_disp d1) g) then Some (id, 1)
     else if negb (dcarried_eqb (import_disp g) d2) then Some (id, 2) else None
+  | GMargin id s1 doc s2 =>
+    (* the document's position list (in its own order) against the model's export; the model's import of the document
+       against positions, counters, parameters and whitelist read from the new chain *)
+    let mtps_eqb := list_eqb (pair_eqb Z.eqb (list_eqb (pair_eqb Z.eqb mtp_eqb))) in
+    if negb (list_eqb (pair_eqb Z.eqb (pair_eqb Z.eqb mtp_eqb)) (mg_mtps (export_margin (margin_carried_of s1))) doc) then Some (id, 1)
+    else let c' := import_margin (mkMG (ms_params s1) doc) in
+      if negb (mtps_eqb (mtps_norm (mc_mtps c')) (mtps_norm (ms_mtps s2))) then Some (id, 2)
+      else if negb (mc_count c' =? ms_count s2) then Some (id, 3)
+      else if negb (mc_open c' =? ms_open s2) then Some (id, 4)
+      else if negb (mparams_eqb (mc_params c') (ms_params s2)) then Some (id, 5)
+      else if negb (list_eqb Z.eqb (mc_whitelist c') (ms_whitelist s2)) then Some (id, 6) else None
   end.
 Definition gen_mismatches (raw : list (list int)) : list (Z * Z) := check_all dGenCase gen_mismatch raw.
